@@ -11,11 +11,14 @@ ASSUMPTIONS = ["executor semantics follow tests/test_validity.py",
 
 
 def cases(tier, seed):
-    return S.make_cases(tier, seed, 4 if tier == "thorough" else 3, "full")
+    out = S.make_cases(tier, seed, 4 if tier == "thorough" else 3, "full")
+    if tier == "thorough":
+        out.insert(0, {"kind": "suite", "file": "tests/test_validity.py"})
+    return out
 
 
 def make_context(tier, seed):
-    return S.make_context(tier, seed)
+    return S.make_context(tier, seed, ["invariant", "finalize"])
 
 
 def nontrivial(res, case):
@@ -26,6 +29,9 @@ def nontrivial(res, case):
 
 
 def run_case(case, ctx):
+    if case.get("kind") == "suite":
+        from ..suite import suite_case
+        return suite_case(case)
     res = S.run_stream_case(case, record=True)
     nt = nontrivial(res, case)
     out = S.result_of(res, case, nt)
